@@ -92,6 +92,7 @@ FLAG_PARAM = {
     'oamwater': ('Water Cost', (0, 1)),
     'totaloam': ('Total O&M Cost', (0.1, 10)),
 }
+DECLARED_DEFAULT = {'Total District Heating Network Cost': 10, 'District Heating O&M Cost': 1}
 PLANT_CLASS = {'power': [(1, 1), (1, 2), (1, 3), (1, 4), (31, 1), (42, 2), (52, 4)], 'heat': [(2, 9)], 'chiller': [(2, 5)],
                'heatpump': [(2, 6)], 'dh': [(2, 7)]}
 
@@ -127,7 +128,8 @@ def config_jobs(configs: list, tier: str) -> list:
         for name, plants, hi in (('Absorption Chiller Capital Cost', (5,), 30), ('Absorption Chiller O&M Cost', (5,), 3), ('Heat Pump Capital Cost', (6,), 30),
                                  ('Total District Heating Network Cost', (7,), 50), ('District Heating O&M Cost', (7,), 5)):
             if pt in plants and rng.random() < 0.6:
-                p[name] = 0 if rng.random() < 0.35 else gen.fmt(rng.uniform(0, hi))      # zero is a cost, not the sentinel
+                r_ = rng.random()      # zero is a cost, not the sentinel; a figure that happens to equal the declared default is a figure too
+                p[name] = 0 if r_ < 0.3 else DECLARED_DEFAULT[name] if r_ < 0.55 and name in DECLARED_DEFAULT else gen.fmt(rng.uniform(0, hi))
         if rng.random() < 0.5:
             gen.add_redrill(p, rng)
         if rng.random() < 0.2:
